@@ -45,7 +45,7 @@ func (c09) Budget(tier string) (int, time.Duration) {
 	if tier == "thorough" {
 		return 6_000_000, 10 * time.Minute
 	}
-	return 200_000, 40 * time.Second
+	return 100_000, 45 * time.Second
 }
 func (c09) Assumptions() []string {
 	return []string{
